@@ -18,10 +18,17 @@ var geometric = map[int]bool{600: true, 601: true, 602: true, 603: true, 604: tr
 
 var floatTok = regexp.MustCompile(`^[+-]?(?:NaN|Inf|[0-9]+(?:\.[0-9]+)?(?:e[+-][0-9]+)?)`)
 
-func canonFStr(s string) string {
+func canonFStr(s string) string { return canonPieces(s, false) }
+
+// canonFStrS: the shape of Txt.fstrS — a text without any float token is the plain string (numrange: "empty", "(,)",
+// "[?,?)"), otherwise the piece list.  The bounds of a numrange are %v of DecodeNumeric's float64 (fix 15).
+func canonFStrS(s string) string { return canonPieces(s, true) }
+
+func canonPieces(s string, plainIfNoFloat bool) string {
 	if s == "" {
 		return core.CanonVal(s)
 	}
+	floats := 0
 	var parts []string
 	var litb strings.Builder
 	flush := func() {
@@ -41,6 +48,7 @@ func canonFStr(s string) string {
 				bits = 0x7FF8000000000001
 			}
 			flush()
+			floats++
 			parts = append(parts, fmt.Sprintf("d%016x", bits))
 			i += len(tok)
 			continue
@@ -49,6 +57,9 @@ func canonFStr(s string) string {
 		i++
 	}
 	flush()
+	if plainIfNoFloat && floats == 0 {
+		return core.CanonVal(s)
+	}
 	return "[" + strings.Join(parts, ",") + "]"
 }
 
@@ -56,6 +67,11 @@ func canonDecoded(oid int, v interface{}) string {
 	if geometric[oid] {
 		if s, ok := v.(string); ok {
 			return canonFStr(s)
+		}
+	}
+	if oid == 3906 {
+		if s, ok := v.(string); ok {
+			return canonFStrS(s)
 		}
 	}
 	return core.CanonVal(v)
@@ -70,10 +86,12 @@ func canonDeep(oid int, v interface{}) string {
 	if a, ok := v.([]interface{}); ok && a == nil {
 		return "~"
 	}
-	if arr, ok := v.([]interface{}); ok && geometricArray[oid] {
+	if arr, ok := v.([]interface{}); ok && (geometricArray[oid] || oid == 3907) {
 		parts := make([]string, len(arr))
 		for i, e := range arr {
-			if s, isStr := e.(string); isStr {
+			if s, isStr := e.(string); isStr && oid == 3907 {
+				parts[i] = canonFStrS(s)
+			} else if isStr {
 				parts[i] = canonFStr(s)
 			} else {
 				parts[i] = core.CanonVal(e)
